@@ -295,7 +295,7 @@ def harness_text(case, N, K, doc, maxres=3, variants=('ar', 'ao', 'nr', 'no'), b
     switches = _re.search(r'\b(at|not_at|disable|enable|minus|rep_max|rep_min_max|apply0?|if_apply|state|control|action)\s*<', case.get('cxx', case['spec'])) is not None
     for v in variants:
         exp = -1 if (switches or v[0] not in 'an') else (1 if v[0] == 'a' else 0)
-        calls.append('#if V_%s\n  sp_expect_a = %d; w_%s_%s(sp_buf, sp_n, sp_start, o); sp_expect_a = -1; check_variant("%s", o, e, %d);\n#endif' % (v, exp, case['name'], v, v, 1 if v[1] == 'r' else 0))
+        calls.append('#if V_%s\n  sp_expect_reset(%d); w_%s_%s(sp_buf, sp_n, sp_start, o); sp_expect_check(o[0]); check_variant("%s", o, e, %d);\n#endif' % (v, exp, case['name'], v, v, 1 if v[1] == 'r' else 0))
     seen = outcomes(e, K, maxres=maxres)
     allv = ('ar', 'ao', 'nr', 'no', 'pr', 'po', 'qr')
     reach = []
